@@ -62,6 +62,16 @@ def run(ck, tier):
     byk = fns_by_key(p)
     _stateless(ck, p, byk)
     _freeze(ck, p)
+    if tier == "thorough":
+        pn = facts.load_nc()
+        from .. import prov as _prov
+        saved = _prov.PROGRAM
+        _prov.PROGRAM = pn
+        try:
+            _stateless(_Sub(ck, "R-C05-stateless", "no-concurrent:"), pn, fns_by_key(pn))
+            _freeze(_Sub(ck, "R-C05-stateless", "no-concurrent:"), pn)
+        finally:
+            _prov.PROGRAM = saved
     _statics(ck, p, byk)
     _key(ck, p, byk)
     _order(ck, p, byk)
@@ -451,6 +461,17 @@ class _Sub:
 
     def decide(self, rule, key, ok, where="", detail="", facts=None):
         return self.ck.decide(self.rule_id, self.prefix + key, ok, where, detail, facts)
+
+    def ob(self, rule, key, verdict, where="", detail="", facts=None):
+        return self.ck.ob(self.rule_id, self.prefix + key, verdict, where, detail, facts)
+
+    @property
+    def extra(self):
+        return self.ck.extra
+
+    @property
+    def notes(self):
+        return self.ck.notes
 
     def refuted(self, rule, key, where="", detail="", facts=None):
         return self.ck.refuted(self.rule_id, self.prefix + key, where, detail, facts)
